@@ -66,6 +66,16 @@ def gen(ctx):
         for tail in (0, 1, 55, 56, 63, 64, 65):
             m = r.bytes(tail)
             add("sm3st %d %s %s" % (nb, st, chunks_str(r.split(m, 2))), "sm3st:nb=%s:tail%s" % (("2^%d%+d" % (nb.bit_length() - (0 if nb & (nb - 1) else 1), 0)) if nb else "0", "pad2" if tail % 64 > 55 else "pad1"))
+    # same for every digest through its public context struct (op hashst)
+    for alg, B in ALGS:
+        wide = B == 128
+        nbs = [2**23 - 1, 2**23, 2**32 + 5, 2**55, 2**64 - 1] if not wide else [2**54 - 1, 2**54, 2**54 + 1, 2**60 + 3, 2**64 - 3]
+        slen = {"sm3": 32, "sha1": 20, "sha224": 32, "sha256": 32, "sha384": 64, "sha512": 64}[alg]
+        for nb in nbs:
+            st = r.bytes(slen).hex()
+            for tail in (0, 1, B - (B // 8) - 1, B - (B // 8), B + 1):
+                m = r.bytes(tail)
+                add("hashst %s %d %s %s" % (alg, nb, st, chunks_str(r.split(m, 2))), "hashst:%s:nb>=2^%d:%s" % (alg, nb.bit_length() - 1, "pad2" if tail % B > B - B // 8 - 1 else "pad1"))
     # --- HMAC: key lengths around the block size, every API style
     for alg, B in ALGS:
         for kl in [1, 2, B - 1, B, B + 1, 4 * B] + ([hl for hl in (20, 32)] if thorough else [32]):
@@ -109,14 +119,16 @@ def run(ctx):
     if model is None:
         ctx.violation("correspondence:model-build", "extracted model does not build: " + log[-500:], {"kind": "correspondence", "log": log[-3000:]}, False)
         return finish(ctx)
-    variants = ["asan"] if ctx.tier == "quick" else ["asan", "small"]
+    variants = ["asan", "small"]   # default build and ENABLE_SMALL_FOOTPRINT; the model runs once
     cases = gen(ctx)
+    mo = None
     for v in variants:
         exe, log = core.build_harness("C03", v)
         if exe is None:
             core.harness_build_failed(ctx, log)
             continue
-        core.differential(ctx, cases, exe, model, variant=v)
+        core.differential(ctx, cases, exe, model, variant=v, model_out=mo)
+        mo = ctx.last_model_out
     return finish(ctx)
 
 
